@@ -910,7 +910,13 @@ pub fn gen_history(rng: &mut Rng, sc: &mut Scenario) {
             _ => {
                 let f = gen_fill(rng, big);
                 // (fills with seed % 16 == 4 are themselves an encoded TLV of type 0x04)
-                let k = if f.seed % 16 == 4 { 0x04 } else { rng.byte() };
+                let k = if f.seed % 16 == 4 {
+                    0x04
+                } else if rng.chance(2, 3) {
+                    TYPE_TABLE[rng.below(12)].1
+                } else {
+                    rng.byte()
+                };
                 BOp::WriteTlv(k, f)
             }
         };
